@@ -69,6 +69,9 @@ impl Progress {
         Progress { ptr: std::ptr::null_mut() }
     }
     pub fn open(path: &Path) -> Progress {
+        if std::env::var("AXMON_NO_PROGRESS").is_ok() {
+            return Progress::none();
+        }
         unsafe {
             let c = std::ffi::CString::new(path.to_str().unwrap()).unwrap();
             let fd = libc::open(c.as_ptr(), libc::O_RDWR | libc::O_CREAT, 0o644);
@@ -283,6 +286,8 @@ pub trait Monitor {
     fn total_cases(&self) -> u64;
     fn run_case(&mut self, k: u64, rng: &mut Rng, col: &mut Collector);
     fn finish(&mut self, _col: &mut Collector) {}
+    /// make one case cheap enough for a 10^4x slower observer (Miri)
+    fn shrink(&mut self) {}
 }
 
 pub struct PropInfo {
@@ -743,6 +748,8 @@ pub fn run_check(spec: &CheckSpec, tier: Tier, seed: u64) -> i32 {
     }
 
     // --- evidence
+    // a sanitizer slice (AXMON_OBSERVER=asan|...) writes a side file; the main run embeds fresh side files
+    let observer = std::env::var("AXMON_OBSERVER").ok();
     let mut coverage = serde_json::Map::new();
     coverage.insert("evaluations".into(), json!(merged.evaluations));
     coverage.insert("distinct_nontrivial".into(), json!(merged.distinct.len()));
@@ -770,6 +777,18 @@ pub fn run_check(spec: &CheckSpec, tier: Tier, seed: u64) -> i32 {
     for (k, v) in &merged.extra {
         coverage.insert(k.clone(), v.clone());
     }
+    if observer.is_none() {
+        if let Ok(list) = std::env::var("AXMON_SLICE_FILES") {
+            let mut slices = Vec::new();
+            for f in list.split(':').filter(|f| !f.is_empty()) {
+                match std::fs::read(f).ok().and_then(|d| serde_json::from_slice::<Value>(&d).ok()) {
+                    Some(v) => slices.push(json!({"file": f, "result": v})),
+                    None => slices.push(json!({"file": f, "result": "observer unavailable or produced no result"})),
+                }
+            }
+            coverage.insert("sanitizer_slices".into(), json!(slices));
+        }
+    }
     let ev = json!({
         "property_id": prop,
         "tier": tier.name(),
@@ -783,7 +802,10 @@ pub fn run_check(spec: &CheckSpec, tier: Tier, seed: u64) -> i32 {
     });
     let evdir = root.join("evidence");
     std::fs::create_dir_all(&evdir).ok();
-    let evfile = evdir.join(format!("{}.json", prop));
+    let evfile = match &observer {
+        Some(o) => evdir.join(format!("{}.{}.json", prop, o)),
+        None => evdir.join(format!("{}.json", prop)),
+    };
     let mut f = std::fs::File::create(&evfile).expect("create evidence file");
     f.write_all(&serde_json::to_vec_pretty(&ev).unwrap()).expect("write evidence");
     let _ = std::fs::remove_dir_all(&rundir);
